@@ -24,8 +24,13 @@ def conc_job(name, share, ops, timeout=1200):
     return dict(module=name, cfg=conc_cfg(share, ops), name=name, timeout=timeout, files={name + ".tla": mod})
 
 
-def run_json(ctx, cmd, input=None, env=None, timeout=600):
-    rc, out, err = ctx.run(cmd, input=input, env=env, timeout=timeout)
+PROC_ENVS = [{}, {"GOARCH": "arm"}, {"GOMAXPROCS": "1"}, {"GOARCH": "386", "GOOS": "windows"}, {"LANG": "tr_TR.UTF-8", "LC_ALL": "tr_TR.UTF-8"},
+             {"GOARCH": "arm64", "GOMAXPROCS": "3"}, {"TZ": "Asia/Tokyo", "HOME": "/nonexistent"}, {"GOARCH": "mips", "GOFLAGS": "-tags=netgo"},
+             {"GOOS": "darwin", "CGO_ENABLED": "0"}, {"GOARCH": "amd64"}, {"GOROOT": "/nonexistent", "GOPATH": "/nonexistent"}, {"GOAMD64": "v3", "GODEBUG": "madvdontneed=1"}]
+
+
+def run_json(ctx, cmd, input=None, env=None, timeout=600, cwd=None):
+    rc, out, err = ctx.run(cmd, input=input, env=env, timeout=timeout, **({"cwd": cwd} if cwd else {}))
     races = err.count("WARNING: DATA RACE")
     rep = None
     try:
@@ -100,18 +105,24 @@ def check(ctx, replay=None):
     # a choice that is made once per process (a table built from a map at initialisation) shows only across processes: with a
     # bias of 1:7 between two outcomes, 48 processes all agree with probability 0.002
     nproc = 400 if th else 48
+    by_env = {}
     for k in range(nproc):
-        rc, rep, races, err = run_json(ctx, [plain if k % 8 else race_bin, "-mode", "digest"])
+        # the same binary in processes whose surroundings differ: environment variables that tools leave exported (a cross-compiling
+        # shell's GOARCH/GOOS, locale, time zone, scheduler settings) and the working directory are not inputs of a compilation
+        env = PROC_ENVS[(k // 2) % len(PROC_ENVS)]
+        rc, rep, races, err = run_json(ctx, [plain if k % 8 else race_bin, "-mode", "digest"], env=env, cwd="/" if k % 3 == 0 else None)
         if rep is None:
             raise vlib.Machinery("detrace digest failed: " + err[-1500:])
         digs.add(rep["digest"])
+        by_env.setdefault(rep["digest"], []).append(env)
         for v in rep["violations"]:
             viol(v, "text forms")
     if len(digs) != 1:
-        viol("compiled programs / text forms / lookups differ between process runs (%d distinct digests)" % len(digs), sorted(digs))
+        viol("compiled programs / text forms / lookups differ between process runs (%d distinct digests)" % len(digs),
+             {d: [json.dumps(e, sort_keys=True) for e in envs][:6] for d, envs in by_env.items()})
     ctx.sample({"histories": hists[:3], "digest": sorted(digs)[0]})
     ctx.cov["rule"] = ("sequential: every call history of at most %d calls over two policy values (Assemble, Dump, GetInfo, text forms) generated by Conc.tla; concurrent: 16 ungated "
                        "goroutines x 4 sharing configurations (distinct values, copies sharing Syscalls, shared Names, shared Conditions) in a -race binary; "
-                       "digests of compilations for 4 architectures, text forms and lookups across %d fresh processes; non-trivial = history compiles at least twice" % (4 if th else 3, nproc))
+                       "digests of compilations for 4 architectures, text forms and lookups across %d fresh processes under 12 different environments (GOARCH/GOOS of a cross-compiling shell, locale, GOMAXPROCS, ...) and two working directories; non-trivial = history compiles at least twice" % (4 if th else 3, nproc))
     ctx.assumptions += ["the TLA+ footprint model cannot observe Go memory accesses; the race detector is the recorder of the real footprints and only sees paths the run executes",
                         "concurrent compilation of the SAME policy value is outside the statement (Assemble caches the architecture in the receiver)"]
